@@ -5,5 +5,7 @@ N2 == {"n1", "n2"}
 S1 == {"n1"}
 S12 == {"n1", "n2"}
 S0 == {}
+(* bound for the failure-detection family: every removal and re-adoption bumps a version vector *)
+VVBound == \A n \in Nodes : \A i \in Ids : view[n].vv[i] <= 4
 Rank(n) == CASE n = "n1" -> 1 [] n = "n2" -> 2 [] n = "n3" -> 3 [] n = "n4" -> 4 [] OTHER -> 9
 =============================================================================
